@@ -341,10 +341,18 @@ func ruleGOB(c *Ctx) {
 		_ = e
 		encOK := containsNode(enc.Body, func(n ast.Node) bool {
 			is, ok := n.(*ast.IfStmt)
-			if !ok || !strings.HasSuffix(w.Src(is.Cond), ".value") || is.Else == nil {
+			if !ok || is.Else == nil {
 				return false
 			}
-			return strings.Contains(w.Src(is.Body), "{1}") && strings.Contains(w.Src(is.Else), "{0}")
+			bare, neg := stripNot(is.Cond)
+			if !strings.HasSuffix(w.Src(bare), ".value") {
+				return false
+			}
+			whenTrue, whenFalse := ast.Node(is.Body), ast.Node(is.Else)
+			if neg {
+				whenTrue, whenFalse = whenFalse, whenTrue
+			}
+			return strings.Contains(w.Src(whenTrue), "{1}") && strings.Contains(w.Src(whenFalse), "{0}")
 		})
 		decOK := containsNode(dec.Body, func(n ast.Node) bool {
 			as, ok := n.(*ast.AssignStmt)
